@@ -106,6 +106,8 @@ func (r *runningRoutine[K, V]) execute(
 		select {
 		case <-ctx.Done():
 			err = context.Canceled
+			// the previous instance must exit before we report ours as exited
+			<-waitCh
 		case <-waitCh:
 		}
 	} else if err = ctx.Err(); err != nil {
